@@ -567,7 +567,7 @@ spif_bool_t
 spif_mbuff_reverse(spif_mbuff_t self)
 {
     spif_byteptr_t tmp;
-    int i, j;
+    spif_memidx_t i, j;
 
     ASSERT_RVAL(!SPIF_MBUFF_ISNULL(self), FALSE);
     REQUIRE_RVAL(self->buff != (spif_byteptr_t) NULL, FALSE);
